@@ -178,7 +178,7 @@ class World:
         prev = torch.get_default_dtype()
         try:
             torch.set_default_dtype(DTYPES[self.cfg["default0"]])
-            torch.manual_seed(17)
+            torch.default_generator.manual_seed(17)   # cpu generator only (torch.manual_seed costs 1 ms)
             ctor = self.history[0]
             kw = dict(PRIMARY_KW.get(self.cfg["primary"], {}))
             if ctor[1] is not None:
@@ -286,14 +286,14 @@ def check_transition(ctx, cfg, hist, op, after, dead):
         if exc is None:
             ctx.violation(site, f"nonfloat_accepted:{_opname(op)}", f"{_opname(op)} must raise {expect_exc} "
                           f"(non-floating dtype) but returned; history {full}", observed=repr(obs),
-                          expected=expect_exc, block=block)
+                          expected=expect_exc, block=block, family="dtype_history")
         elif type(exc).__name__ != expect_exc:
             ctx.violation(site, f"nonfloat_wrong_exception:{type(exc).__name__}", f"{_opname(op)} raised "
                           f"{type(exc).__name__}: {str(exc)[:120]}, documented {expect_exc}; history {full}",
-                          observed=type(exc).__name__, expected=expect_exc, block=block)
+                          observed=type(exc).__name__, expected=expect_exc, block=block, family="dtype_history")
         if obs != exp:
             ctx.violation(site, f"rejected_cast_changed_state:{_opname(op)}", f"rejected {_opname(op)} changed the "
-                          f"instrument; history {full}", observed=repr(obs), expected=repr(exp), block=block)
+                          f"instrument; history {full}", observed=repr(obs), expected=repr(exp), block=block, family="dtype_history")
         ctx.add("rejected_casts_checked", 1)
         return True
     if exc is not None:
@@ -305,7 +305,7 @@ def check_transition(ctx, cfg, hist, op, after, dead):
             return False
         ctx.violation(site, f"raises:{type(exc).__name__}:{_opname(op)}:{decl_cls}_{before_m.sim_dtype()}",
                       f"{_opname(op)} raised {type(exc).__name__}: {str(exc)[:160]}; history {full}",
-                      observed=f"{type(exc).__name__}: {str(exc)[:160]}", expected=repr(exp), block=block)
+                      observed=f"{type(exc).__name__}: {str(exc)[:160]}", expected=repr(exp), block=block, family="dtype_history")
         dead.add(_hkey(full))
         return False
     if obs != exp:
@@ -320,16 +320,16 @@ def check_transition(ctx, cfg, hist, op, after, dead):
             what.append("global_default")
         ctx.violation(site, f"{'+'.join(what)}_after_{_opname(op)}:{decl_cls}",
                       f"after {_opname(op)} the instrument is {obs}, the contract gives {exp}; history {full}",
-                      observed=repr(obs), expected=repr(exp), block=block)
+                      observed=repr(obs), expected=repr(exp), block=block, family="dtype_history")
     # invariant: every buffer has the declared dtype, and lives on the cpu
     decl = obs[0]
     if decl is not None and any(d != decl for _, d in obs[2]):
         ctx.violation(site, f"buffer_dtype_differs_from_declared_after_{op[0]}:{decl_cls}",
                       f"buffers {obs[2]} but the instrument declares {decl}; history {full}",
-                      observed=repr(obs[2]), expected=decl, block=block)
+                      observed=repr(obs[2]), expected=decl, block=block, family="dtype_history")
     if any(dev != "cpu" for dev in after.buffer_devices()):
         ctx.violation(site, f"buffer_device_after_{op[0]}", f"buffer devices {after.buffer_devices()}",
-                      observed=list(after.buffer_devices()), expected="cpu", block=block)
+                      observed=list(after.buffer_devices()), expected="cpu", block=block, family="dtype_history")
     # the derivative's dtype/device are those of its underlier
     pd, pdev = getattr(after.p, "dtype", "missing"), getattr(after.p, "device", "missing")
     try:
@@ -339,7 +339,7 @@ def check_transition(ctx, cfg, hist, op, after, dead):
     if dd != pd or ddev != pdev:
         ctx.violation("derivative(" + cfg["derivative"] + ").dtype", f"alias_after_{op[0]}",
                       f"derivative dtype/device {dd}/{ddev} != underlier's {pd}/{pdev}; "
-                      f"history {full}", observed=[str(dd), str(ddev)], expected=[str(pd), str(pdev)], block=block)
+                      f"history {full}", observed=[str(dd), str(ddev)], expected=[str(pd), str(pdev)], block=block, family="dtype_history")
     return True
 
 
@@ -406,7 +406,7 @@ def check_state(ctx, cfg, history, world, level):
                 return None
             ctx.violation(site, f"raises:{type(e).__name__}:{name}:{NAME_OF[want]}:{state_cls}",
                           f"{name} raised {type(e).__name__}: {str(e)[:200]} in state {m}; history {history}",
-                          observed=f"{type(e).__name__}: {str(e)[:200]}", expected=str(want), block=block)
+                          observed=f"{type(e).__name__}: {str(e)[:200]}", expected=str(want), block=block, family="dtype_history")
             return None
         n += 1
         if not isinstance(out, torch.Tensor):
@@ -415,7 +415,7 @@ def check_state(ctx, cfg, history, world, level):
             ctx.violation(site, f"dtype:{name}:{NAME_OF.get(out.dtype, str(out.dtype))}_expected_{NAME_OF[want]}:{state_cls}",
                           f"{name} has dtype {out.dtype} on {out.device}, the instrument's series are {want} "
                           f"(state {m}); history {history}", observed=[str(out.dtype), str(out.device)],
-                          expected=[str(want), "cpu"], block=block)
+                          expected=[str(want), "cpu"], block=block, family="dtype_history")
         ctx.outcome((name, str(out.dtype)))
         return out
 
@@ -467,7 +467,7 @@ def check_state(ctx, cfg, history, world, level):
                         ctx.violation(cfg["primary"] + ".simulate", f"resimulated_dtype:{state_cls}",
                                       f"after Hedger.price the series are {got}, simulations are to be produced "
                                       f"in {want}; history {history}", observed=repr(got), expected=str(want),
-                                      block=block)
+                                      block=block, family="dtype_history")
     return n
 
 
@@ -556,7 +556,7 @@ def dtype_history(ctx, block):
     if obs != exp:
         ctx.violation(cfg["primary"] + ".history", "end_state_differs_from_automaton",
                       f"after {h} the instrument is {obs}, the automaton gives {exp}", observed=repr(obs),
-                      expected=repr(exp), block=block)
+                      expected=repr(exp), block=block, family="dtype_history")
     q = check_state(ctx, cfg, h, World(cfg, h), block.get("queries", "full"))
     ctx.tick(q)
     ctx.add("traces_validated_against_impl", 1)
